@@ -465,6 +465,16 @@ def run_property(pid, spec, tier, seed, only=None, jobs=0):
             elif st == "FAIL":
                 # assertion messages carry the id of the property they state ("Cxx ..."); a failure that states another
                 # property is that property's business (its own check runs the same harness) and is only noted here
+                # a deviation from the harness's store-lookup script (or any other harness-model mismatch flagged by a shim) says
+                # that the harness no longer fits the code, not that the property is violated: inconclusive, never an alarm
+                script = [f for f in parsed["failed"] if "verif-script:" in f["desc"] or "store shim:" in f["desc"] or "kcoll: capacity" in f["desc"]
+                          or "tokio shim:" in f["desc"] or "futures shim:" in f["desc"]]
+                if script:
+                    sample["status"] = "HARNESS-MISMATCH"
+                    sample["failed"] = [f["desc"] + " @ " + f["loc"] for f in script]
+                    inconclusive.append("%s:harness-model mismatch (%s)" % (h.get("short", h["name"]), script[0]["desc"][:80]))
+                    samples.append(sample)
+                    continue
                 mine, foreign = [], []
                 for f in parsed["failed"]:
                     tag = re.match(r'^"?(C\d\d)\b', f["desc"])
